@@ -1469,11 +1469,19 @@ void observed_entry()
     std::normal_distribution<double> sd(1.0, 2.0);
     typename E::f g1{fseed<E>(seed)};
     typename E::s g2(sseed<E>(seed));
+    // a second, untouched pair with the same parameters: == and != of the wrappers give the verdict of the wrapped
+    // distributions (std::normal_distribution compares its saved second value too) - transparency of basic_impl.hpp
+    fr::distribution::basic<P> const fresh{P::mean(1.0), P::stddev(2.0)};
+    std::normal_distribution<double> const sfresh(1.0, 2.0);
     for (int round = 0; round < 4; ++round)
     {
       for (int i = 0; i < 3; ++i)
       {
         ++calls;
+        if ((d == fresh) != (sd == sfresh) || (d != fresh) != (sd != sfresh))
+          vf::violation(std::string("distribution::basic::operator==/normal<double>/") + E::name + "/verdict-differs-from-wrapped", "mismatch",
+                        "seed " + std::to_string(seed) + " round " + std::to_string(round) + " after " + std::to_string(i) + " draws: == / != of the wrappers differ from == / != of the wrapped distributions");
+        VF_COUNT("judged/equality-of-distributions-with-state");
         // judged: the same member calls on both sides (draws and reset()) must keep the sequences identical
         if (!same_fp(d(g1), sd(g2)))
           vf::violation(std::string("distribution::basic::reset/normal<double>/") + E::name + "/sequence-after-reset", "mismatch",
